@@ -30,6 +30,14 @@ class GotranPythonCodePrinter(PythonCodePrinter):
     }
     _kc = {k: f"numpy.{v.replace('math.', '')}" for k, v in PythonCodePrinter._kc.items()}
 
+    def _print_re(self, expr):
+        # All variables are real numbers, but sympy may introduce the real part,
+        # e.g. abs(exp(asin(x))) -> exp(re(asin(x)))
+        return self._print(expr.args[0])
+
+    def _print_im(self, expr):
+        return self._print(sympy.S.Zero)
+
     def _hprint_Pow(self, expr, rational=False, sqrt="numpy.sqrt"):
         value = super()._hprint_Pow(expr, rational, sqrt)
         if expr.exp == -sympy.S.Half and not rational:
